@@ -1,0 +1,41 @@
+//go:build verif
+
+// Contracts for package hash, checked by /verif (bfvc). Comment-only.
+package hash
+
+// C15 / C02. digest, knownHash, hashLen: /verif/specs/hashes.spec.
+
+//@ func (HashType).Validate
+//@   ensures (ret == nil) <==> (h == 0 || knownHash(h))
+
+//@ func (HashType).GetHashLen
+//@   ensures knownHash(h) ==> ret == hashLen(h)
+//@   ensures !knownHash(h) ==> ret == 0
+
+//@ func (HashType).Sum
+//@   ensures knownHash(h) ==> ret1 == nil && content(ret0) == digest(h, data)
+//@   ensures !knownHash(h) ==> ret1 != nil
+//@   fresh ret0
+
+//@ func Sum
+//@   ensures knownHash(ht) ==> ret1 == nil && ret0 != nil && ret0.HashType == ht && content(ret0.Hash) == digest(ht, data)
+//@   ensures !knownHash(ht) ==> ret1 != nil
+//@   fresh ret0
+
+//@ func NewHash
+//@   ensures ret != nil && ret.HashType == ht && ret.Hash == h
+//@   fresh ret
+
+// Verifying succeeds exactly when the digest of the data under the hash's
+// algorithm equals the stored digest (byte-wise, including length).
+//@ func (*Hash).VerifyData
+//@   ensures (ret1 == nil) <==> (knownHash(h.HashType) && h.Hash == digest(h.HashType, data))
+
+// A hash is valid only if its algorithm is known and the digest has that algorithm's length.
+//@ func (*Hash).Validate
+//@   ensures ret == nil ==> knownHash(h.HashType) && len(h.Hash) == hashLen(h.HashType)
+//@   ensures knownHash(h.HashType) && len(h.Hash) == hashLen(h.HashType) ==> ret == nil
+
+//@ func (*Hash).CompareHash
+//@   nilable-receiver
+//@   ensures ret <==> ((h == nil && other == nil) || (h != nil && other != nil && h.HashType == other.HashType && h.Hash == other.Hash))
